@@ -127,10 +127,14 @@ func c40StartWorld() (*c40World, error) {
 
 func (w *c40World) now() int64 { return int64(time.Since(w.t0)) }
 
-// barrier queues behind everything the Core loop has been sent; "terminated" means the loop is gone or going.
+// barrier queues behind everything the Core loop has been sent; false means the loop is gone or going.
+// Every Core.API* entry point either gets its answer from the loop or gives up because the Core's own context has been
+// cancelled (Close(), or the loop on its way out). Which of the two happened is read from that context, not from
+// the wording of the error: whatever the call returned (nil, "path not found", the shutdown error under any
+// wording), the loop is alive iff the context is. The context is set once in New() and never replaced.
 func (w *c40World) barrier() bool {
-	err := w.c.Core.APIConfigPathsDelete("verif_barrier_nonexistent_path")
-	return err == nil || err.Error() != "terminated"
+	w.c.Core.APIConfigPathsDelete("verif_barrier_nonexistent_path") //nolint:errcheck
+	return w.c.Core.ctx.Err() == nil
 }
 
 // refreshPM publishes the Core's current path manager. Caller holds globalMu (no other edit that recreates the
